@@ -304,6 +304,32 @@ impl Client {
         out
     }
 
+    /// Cheap change detector: complete peer state (timestamps as raw values) plus the small
+    /// meta records of the store (not the indexed data).
+    pub(crate) fn light_print(&self) -> String {
+        let mut s = self.peers.verif_dump(0);
+        let (td, tip) = self.storage.get_last_state();
+        s.push_str(&format!(
+            "tip={:#x} td={:#x} min_filtered={} max_cp={} lastn={:?} earliest_matched={:?}\n",
+            tip.calc_header_hash(),
+            td,
+            self.storage.get_min_filtered_block_number(),
+            self.storage.get_max_check_point_index(),
+            self.storage
+                .get_last_n_headers()
+                .iter()
+                .map(|(n, h)| format!("{}:{:#x}", n, h))
+                .collect::<Vec<_>>(),
+            self.storage
+                .get_earliest_matched_blocks()
+                .map(|(a, b, c)| (a, b, c.len())),
+        ));
+        for ss in self.storage.get_filter_scripts() {
+            s.push_str(&format!("script {:#x} {}\n", ss.script.calc_script_hash(), ss.block_number));
+        }
+        s
+    }
+
     pub(crate) fn tip_number(&self) -> u64 {
         self.storage.get_tip_header().raw().number().unpack()
     }
